@@ -431,6 +431,7 @@ def _layout_programs():
     for f in seps:
         out.append("".join(t + f(i) for i, t in enumerate(toks)))
     out.append("/* */".replace("/* */", "") + "\n\n   " + " ".join(toks))
+    out.append("\ufeff" + out[1])          # a text that starts with a byte order mark (what a UTF-8-with-BOM file reads as): offsets count it
     return out
 
 
@@ -441,13 +442,15 @@ def c20_e2e(R):
     its text and str(range) is the 1-based line:column of that text; after UpdateLocations every node's range covers its children's."""
     progs = _layout_programs()
     bad = None
+    import io, contextlib
     import nsl.parser as P
     import nsl.ast as a
     from nsl.passes import UpdateLocations
     for src in progs:
         try:
             parser = P.NslParser()
-            tree = parser.Parse(src)
+            with contextlib.redirect_stdout(io.StringIO()):
+                tree = parser.Parse(src)
             UpdateLocations.GetPass().Process(tree)
         except BaseException as e:
             bad = (src, f"parse failed: {type(e).__name__} {e}")
@@ -518,7 +521,8 @@ def c20_parse_history(R):
     """Whatever was parsed before on the same parser object, the ranges attached while parsing a text are converted with the line table of THAT
     text: Parse(t1); Parse(t2) reports the same line:column for t2 as a fresh parser does."""
     import nsl.parser as P
-    texts = ["alpha beta\ngamma\n\n  delta epsilon", "alpha\nbeta\ngamma\ndelta\nepsilon", "\n\n\nalpha beta gamma delta epsilon", "alpha beta gamma\tdelta\n epsilon"]
+    texts = ["alpha beta\ngamma\n\n  delta epsilon", "alpha\nbeta\ngamma\ndelta\nepsilon", "\n\n\nalpha beta gamma delta epsilon", "alpha beta gamma\tdelta\n epsilon",
+             "\ufeffalpha beta\ngamma delta\nepsilon"]          # the last one starts with a byte order mark: it is a character of the caller's text like any other
     words = ["alpha", "beta", "gamma", "delta", "epsilon"]
 
     def expected(text, w):
@@ -532,6 +536,7 @@ def c20_parse_history(R):
             self.owner = owner
 
         def parse(self, text, lexer=None, **kw):
+            self.received = text
             lexer.input(text)
             getloc = self.owner._NslParser__GetLocation
             return [str(getloc(FakeP([w], [text.index(w)]), 1)) for w in words]
@@ -543,6 +548,8 @@ def c20_parse_history(R):
         for k, ti in enumerate(order):
             got = prs.Parse(texts[ti])
             want = [expected(texts[ti], w) for w in words]
+            if prs.parser.received != texts[ti] and bad is None:
+                bad = (k, ti, f"(the automaton was handed {prs.parser.received!r}: token offsets no longer refer to the caller's text)", want)
             if got != want and bad is None:
                 bad = (k, ti, got, want)
         R.check(f"C20.parse.history[{'>'.join(map(str, order))}]", "nsl.parser::NslParser.Parse", bad is None,
@@ -553,17 +560,20 @@ def c20_parse_history(R):
                     def locs(prs, src):
                         tree = prs.Parse(src); out = []
                         def walk(n):
-                            if isinstance(n, ast.PrimaryExpression): out.append((n.GetName(), str(n.GetLocation())))
+                            if isinstance(n, ast.PrimaryExpression):
+                                out.append((n.GetName(), str(n.GetLocation())))
+                                l = n.GetLocation()
+                                if src[l.GetBegin():l.GetEnd()] != n.GetName(): out.append(('range designates', src[l.GetBegin():l.GetEnd()], 'not', n.GetName())); wrong.append(1)
                             n.ForEachChild(lambda c, ctx: walk(c))
                         walk(tree); return out
                     shared = parser.NslParser(parser.ParseEntryPoint.Statement)
-                    bad = False
+                    bad = False; wrong = []
                     for t in texts:
                         a = locs(shared, t); b = locs(parser.NslParser(parser.ParseEntryPoint.Statement), t)
                         print(repr(t), 'same parser:', a, 'fresh parser:', b)
                         bad = bad or a != b
-                    if bad: print('REPLAY-CONFIRMED')
-                    """, texts=["x = (alpha + beta);", "x\n=\n(alpha\n+\nbeta);", "\n\n x = (alpha + beta);"]))
+                    if bad or wrong: print('REPLAY-CONFIRMED')
+                    """, texts=["x = (alpha + beta);", "x\n=\n(alpha\n+\nbeta);", "\n\n x = (alpha + beta);", "\ufeffx = (alpha\n + beta);"]))
 
     # end to end, one parser / one Compiler for all layouts
     import nsl.ast as a
@@ -595,3 +605,107 @@ def c20_parse_history(R):
         if t1 is not None and locs(t1) != locs(P.NslParser().Parse(src)) and bad is None:
             bad = src
     R.bounded("C20.e2e.history[compiler]", "nsl.Compiler::Compiler.Compile", bad is None, 2 * len(progs), detail="" if bad is None else f"the Compiler's parser reports different positions after earlier compilations for {bad[:60]!r}...")
+
+
+
+def _compound_programs():
+    toks = ["struct", "P", "{", "int", "n", ";", "float2", "v", ";", "}",
+            "export", "function", "compute", "(", "int", "first", ",", "int", "second", ")", "->", "int", "{",
+            "int", "local", "=", "first", ";", "int", "[", "3", "]", "arr", ";", "P", "p", ";",
+            "local", "+=", "(", "first", "*", "second", ")", ";",
+            "arr", "[", "1", "]", "-=", "first", ";",
+            "p", ".", "n", "*=", "(", "local", "+", "second", ")", ";",
+            "p", ".", "v", ".", "x", "+=", "arr", "[", "1", "]", ";",
+            "local", "/=", "second", ";",
+            "arr", "[", "2", "]", "+=", "(", "p", ".", "n", "-", "arr", "[", "1", "]", ")", ";",
+            "return", "(", "local", "+", "arr", "[", "2", "]", ")", ";", "}"]
+    seps = [lambda i: " ", lambda i: "\n" if i % 3 == 0 else " ", lambda i: "\n\n\t" if i % 5 == 0 else "  ", lambda i: "\n  " if i % 2 else " \t "]
+    out = []
+    for f in seps:
+        out.append("".join(t + f(i) for i, t in enumerate(toks)).replace("p . n", "p.n").replace("p . v . x", "p.v.x"))
+    return out
+
+
+@family("C20.e2e.pipeline", props=["C20"], functions=["nsl.parser::NslParser.Parse", "nsl.passes.RewriteAssignEqualOperations::RewriteAssignEqualVisitor.v_AssignmentExpression",
+                                                       "nsl.passes.UpdateLocations::UpdateLocationsVisitor.v_Generic", AST + "::Location.Merge"],
+        assumptions=["BOUNDED stand-in (never counted as proved): one token sequence with every compound assignment shape (leaf / composite on either side: identifiers, "
+                     "parenthesised binary expressions, indexed and member targets) in four layouts, taken through the passes the Compiler runs before and including "
+                     "update-locations (rewrite-assign-equal, update-locations), in that order"])
+def c20_e2e_pipeline(R):
+    """After the passes that rewrite the tree and then compute ranges, every reported range is a range OF THE TEXT (0 <= begin <= end <= len(text),
+    or the explicit unknown), identifiers designate their own characters, and a composite node's range is the hull of its children's."""
+    import io, contextlib
+    import nsl.parser as P
+    import nsl.ast as a
+    from nsl.passes import UpdateLocations, RewriteAssignEqualOperations
+    progs = _compound_programs()
+    bad = None
+    for src in progs:
+        try:
+            with contextlib.redirect_stdout(io.StringIO()):
+                tree = P.NslParser().Parse(src)
+                RewriteAssignEqualOperations.GetPass().Process(tree)
+                UpdateLocations.GetPass().Process(tree)
+        except BaseException as e:
+            if isinstance(e, KeyboardInterrupt):
+                raise
+            bad = (src, f"parse / passes failed: {type(e).__name__} {e}")
+            break
+        prob = []
+        seen = set()
+
+        def walk(n):
+            if id(n) in seen:
+                return          # the rewrite shares the target node between the load and the store
+            seen.add(id(n))
+            l = n.GetLocation()
+            if not l.IsUnknown and not (0 <= l.GetBegin() <= l.GetEnd() <= len(src)):
+                prob.append(f"{type(n).__name__} has the range ({l.GetBegin()}, {l.GetEnd()}), which is not a range of the text (length {len(src)})")
+            if isinstance(n, a.PrimaryExpression) and (l.IsUnknown or src[l.GetBegin():l.GetEnd()] != n.GetName()):
+                prob.append(f"identifier {n.GetName()!r} located at {src[max(0, l.GetBegin()):l.GetEnd()]!r} ({l})")
+            kids = []
+            n.ForEachChild(lambda c, ctx: kids.append(c))
+            known = [c.GetLocation() for c in kids if not c.GetLocation().IsUnknown]
+            for cl in known:
+                if l.IsUnknown or l.GetBegin() > cl.GetBegin() or l.GetEnd() < cl.GetEnd():
+                    prob.append(f"{type(n).__name__} range {l} does not cover a child's range {cl}")
+            for c in kids:
+                walk(c)
+
+        walk(tree)
+        if prob:
+            bad = (src, prob[0])
+            break
+    rp = None
+    if bad:
+        rp = script("""
+            import io, contextlib
+            from nsl import parser, ast
+            from nsl.passes import UpdateLocations, RewriteAssignEqualOperations
+            src = {{src}}
+            with contextlib.redirect_stdout(io.StringIO()):
+                tree = parser.NslParser().Parse(src)
+                RewriteAssignEqualOperations.GetPass().Process(tree)
+                UpdateLocations.GetPass().Process(tree)
+            prob = []; seen = set()
+            def walk(n):
+                if id(n) in seen: return
+                seen.add(id(n))
+                l = n.GetLocation()
+                if not l.IsUnknown and not (0 <= l.GetBegin() <= l.GetEnd() <= len(src)):
+                    prob.append((type(n).__name__, l.GetBegin(), l.GetEnd(), 'not a range of the text'))
+                if isinstance(n, ast.PrimaryExpression) and (l.IsUnknown or src[l.GetBegin():l.GetEnd()] != n.GetName()):
+                    prob.append((n.GetName(), str(l)))
+                kids = []
+                n.ForEachChild(lambda c, ctx: kids.append(c))
+                for c in kids:
+                    cl = c.GetLocation()
+                    if not cl.IsUnknown and (l.IsUnknown or l.GetBegin() > cl.GetBegin() or l.GetEnd() < cl.GetEnd()):
+                        prob.append((type(n).__name__, str(l), 'does not cover', str(cl)))
+                    walk(c)
+            walk(tree)
+            print(prob[:5])
+            if prob: print('REPLAY-CONFIRMED')
+            """, src=bad[0])
+    R.bounded("C20.e2e.pipeline", "nsl.passes.UpdateLocations::UpdateLocationsVisitor.v_Generic", bad is None, len(progs),
+              detail=f"{len(progs)} layouts; every range is a range of the text, identifiers designate their text, composites cover their parts" if not bad else bad[1], replay=rp)
